@@ -357,8 +357,16 @@ IterRefines ==
        /\ a.op = "getn" => \A thr \in ThrSet : ImplGetN(bm[a.h], a, thr) = Reply(a)
   ]_allvars
 
+(* the same as state invariants (reads do not change the state, so they can be quantified *)
+(* over in place; TLC evaluates invariants in parallel, action properties it does not)    *)
+IterRefinesInv ==
+  /\ \A a \in IterActs({1}) : a.pos + Count(bm[a.h], a.n) <= a.len =>
+        \A thr \in ThrSet : ImplIter(bm[a.h], a, thr) = Reply(a)
+  /\ \A a \in GetNActs({1}) : \A thr \in ThrSet : ImplGetN(bm[a.h], a, thr) = Reply(a)
+
 View == vars
 
 (* structured constants for the .cfg files (negative numbers cannot be written there) *)
 MCIdx == (-9..12) \cup {100, 255}
+MCIdxBig == (-13..17) \cup {100, 255, 256, 259}
 =============================================================================
